@@ -43,7 +43,7 @@ def gen_fullrank(rng, mmax=4, nmax=6, structured=False):
 
 def viol(chk, found, c, dt, what, extra):
     rep = R.case_json(c, dt)
-    rep.update({"kind": "oracle"})
+    rep.update({"kind": "oracle", "pad": c.get("pad", 0)})
     rep.update(extra)
     chk.violation(what, rep)
     found.add((c["name"], A.jsonable(c["J"]).__repr__(), dt))
@@ -53,10 +53,23 @@ def npJ(J):
     return np.array([[float(x) for x in r] for r in J], dtype=np.float64)
 
 
-def oracle_imtlg(chk, c, dt, found):
+def padded(J, dt, pad):
+    """J followed by `pad` all-zero columns (parameters that influence nothing), as a tensor"""
+    if not pad:
+        return None
+    t = torch.zeros(len(J), len(J[0]) + pad, dtype=A.DT[dt])
+    t[:, :len(J[0])] = A.to_tensor(J, dt)
+    return t
+
+
+def head(r, n):
+    return r if r[0] != "ok" or len(r[1]) <= n else ("ok", r[1][:n]) + tuple(r[2:])
+
+
+def oracle_imtlg(chk, c, dt, found, tensor_pad=0):
     J = c["J"]
-    w = A.impl_call("IMTLG", {}, J, dt, weighting=True)
-    o = A.impl_call("IMTLG", {}, J, dt)
+    w = A.impl_call("IMTLG", {}, J, dt, weighting=True, tensor=padded(J, dt, tensor_pad))
+    o = head(A.impl_call("IMTLG", {}, J, dt, tensor=padded(J, dt, tensor_pad)), len(J[0]))
     if w[0] != "ok" or o[0] != "ok":
         return viol(chk, found, c, dt, f"IMTLG raised {w[1]}", {})
     Jf = npJ(J)
@@ -73,15 +86,18 @@ def oracle_imtlg(chk, c, dt, found):
         chk.note("imtlg_cases_with_negative_weight")
 
 
-def oracle_config(chk, c, dt, found):
+def oracle_config(chk, c, dt, found, tensor_pad=0):
     J, p = c["J"], c["params"]
-    o = A.impl_call("ConFIG", p, J, dt)
+    o = head(A.impl_call("ConFIG", p, J, dt, tensor=padded(J, dt, tensor_pad)), len(J[0]))
     if o[0] != "ok":
         return viol(chk, found, c, dt, f"ConFIG raised {o[1]}", {})
     Jf = npJ(J)
     a = np.array(o[1])
     na = np.linalg.norm(a)
     pref = np.array([float(x) for x in (p.get("pref") or [1] * len(J))])
+    if not np.all(np.isfinite(a)) or na == 0:
+        return viol(chk, found, c, dt, f"ConFIG returned {o[1][:6]} on a matrix with linearly independent "
+                    f"rows (no direction, no cosines)", {})
     cos = (Jf @ a) / (np.linalg.norm(Jf, axis=1) * na)
     ratio = cos / pref
     t = TOL[dt] * 30
@@ -182,6 +198,20 @@ def run(chk):
             oracle_aligned(chk, c, dt, found, tensor_pad=2 ** 16)
         chk.count(R.case_json(c), nontrivial=True)
         break
+    # IMTL-G and ConFIG on model-sized Jacobians (float32): equal projections / proportional cosines
+    # must not depend on how many parameters influence nothing (defect D6 lived here)
+    for J, pref in (([[F(1), F(2), F(0)], [F(0), F(1), F(3)]], None),
+                    ([[F(64), F(64), F(1)], [F(64), F(65), F(0)]], [F(1), F(3)]),
+                    ([[F(3), F(-1), F(2)], [F(1), F(4), F(-2)], [F(-2), F(1), F(5)]], [F(1), F(2), F(4)])):
+        for z in (2 ** 17, 2 ** 23 + 2 ** 20):
+            cI = {"name": "IMTLG", "params": {}, "J": J, "cat": "wide_zero_padded", "pad": z}
+            cC = {"name": "ConFIG", "params": {"pref": pref}, "J": J, "cat": "wide_zero_padded", "pad": z}
+            oracle_imtlg(chk, cI, "f32", found, tensor_pad=z)
+            oracle_config(chk, cC, "f32", found, tensor_pad=z)
+            chk.cov["evaluations"] += 3
+        if q:
+            break
+    chk.count({"wide": "IMTLG/ConFIG with 2^17 and 9.4e6 zero columns (float32)"}, nontrivial=True)
     zero_checks(chk, found)
     R.report_corr(chk, dis, found)
     chk.cov["rule"] = ("random integer matrices with full row rank, m<=4<=n<=6, condition <= 1e3, scales "
@@ -206,5 +236,6 @@ def replay(chk, obj):
     elif c["name"] == "AlignedMTL":
         oracle_aligned(chk, c, dt, found, tensor_pad=obj.get("pad", 0))
     else:
-        {"IMTLG": oracle_imtlg, "ConFIG": oracle_config}[c["name"]](chk, c, dt, found)
+        {"IMTLG": oracle_imtlg, "ConFIG": oracle_config}[c["name"]](chk, c, dt, found,
+                                                                   tensor_pad=int(obj.get("pad", 0) or 0))
     return not chk.violations
